@@ -65,7 +65,7 @@ def showOut (variant : String) (o : Out) : String :=
   | .val bs =>
     match variant with
     | "int" | "ptr" => s!"v={s32 bs}"
-    | "struct" | "structval" => s!"c={s8 (bs.getD 0 0)},l={s32 ((bs.drop 4).take 4)},p={showPtr (decodeLE ((bs.drop 8).take 4))}"
+    | "struct" | "structval" | "structauto" => s!"c={s8 (bs.getD 0 0)},l={s32 ((bs.drop 4).take 4)},p={showPtr (decodeLE ((bs.drop 8).take 4))}"
     | "arr" => s!"a={ints bs}"
     | "range" => s!"a={ints bs} size={bs.length}"
     | "stru" =>
@@ -80,7 +80,7 @@ def progOf (variant : String) (src : PSrc) : Option (Prog Out) :=
   | "int" => some (cavScalar ARR 4)
   | "ptr" => some (cavPtr src 4)
   | "struct" => some (cavStruct src 12)
-  | "structval" => some (cavScalar STRUCT 12)
+  | "structval" | "structauto" => some (cavScalar STRUCT 12)
   | "arr" => some (cavScalar ARR 16)
   | "range" => some (cavRange src 4 4)
   | "stru" => some (cavStrU src)
